@@ -79,26 +79,30 @@ DnssecFrame == [][\A b \in BOOLEAN : WantDnssec(b) => flags' = flags /\ Rcode' =
 Register(v, txt, single) == regs' = Append(regs, <<v, txt, single>>) /\ UNCHANGED hvars
 RNext == \E v \in RVals, txt \in RTexts, s \in BOOLEAN : Register(v, txt, s)
 
-Latest(P(_)) == CHOOSE k \in 1..Len(regs) : P(regs[k]) /\ \A j \in (k + 1)..Len(regs) : ~P(regs[j])
-RegisteredValue(v) == \E k \in 1..Len(regs) : regs[k][1] = v
-RegisteredText(s) == \E k \in 1..Len(regs) : Upper(regs[k][2]) = Upper(s)
-RToText(v) == IF HasValue(TypeTable, v) THEN CanonName(TypeTable, v)
-              ELSE IF RegisteredValue(v) THEN regs[Latest(LAMBDA r : r[1] = v)][2]
-              ELSE Generic("type", v)
-RFromText(s) == LET b == FromText("type", TypeTable, s)
-                IN  IF b[1] = "ok" THEN b
-                    ELSE IF RegisteredText(s) THEN <<"ok", regs[Latest(LAMBDA r : Upper(r[2]) = Upper(s))][1]>>
-                    ELSE b
-RSingleton(v) == v \in SingletonTypes \/ \E k \in 1..Len(regs) : regs[k][1] = v /\ regs[k][3]
+(* the registry after the registrations rs *)
+LatestIn(rs, P(_)) == CHOOSE k \in 1..Len(rs) : P(rs[k]) /\ \A j \in (k + 1)..Len(rs) : ~P(rs[j])
+RToTextIn(rs, v) == IF HasValue(TypeTable, v) THEN CanonName(TypeTable, v)
+                    ELSE IF \E k \in 1..Len(rs) : rs[k][1] = v THEN rs[LatestIn(rs, LAMBDA r : r[1] = v)][2]
+                    ELSE Generic("type", v)
+RFromTextIn(rs, s) == LET b == FromText("type", TypeTable, s)
+                      IN  IF b[1] = "ok" THEN b
+                          ELSE IF \E k \in 1..Len(rs) : Upper(rs[k][2]) = Upper(s)
+                               THEN <<"ok", rs[LatestIn(rs, LAMBDA r : Upper(r[2]) = Upper(s))][1]>>
+                          ELSE b
+RSingletonIn(rs, v) == v \in SingletonTypes \/ \E k \in 1..Len(rs) : rs[k][1] = v /\ rs[k][3]
+RToText(v) == RToTextIn(regs, v)
+RFromText(s) == RFromTextIn(regs, s)
+RSingleton(v) == RSingletonIn(regs, v)
 
 (* a registration nothing interferes with: the value has no built-in mnemonic, the text is a word
    that is neither a built-in name nor of generic shape, and no other registration uses the value
    with another text or the text with another value *)
-Clean(k) == LET v == regs[k][1]
-                txt == regs[k][2]
-            IN  /\ ~HasValue(TypeTable, v)
-                /\ Lex("type", txt)[1] = "word" /\ ~HasName(TypeTable, Upper(txt))
-                /\ \A j \in 1..Len(regs) : (regs[j][1] = v) = (Upper(regs[j][2]) = Upper(txt))
+CleanIn(rs, k) == LET v == rs[k][1]
+                      txt == rs[k][2]
+                  IN  /\ ~HasValue(TypeTable, v)
+                      /\ Lex("type", txt)[1] = "word" /\ ~HasName(TypeTable, Upper(txt))
+                      /\ \A j \in 1..Len(rs) : (rs[j][1] = v) = (Upper(rs[j][2]) = Upper(txt))
+Clean(k) == CleanIn(regs, k)
 RegisteredRoundTrip == \A k \in 1..Len(regs) : Clean(k) =>
                           /\ Upper(RToText(regs[k][1])) = Upper(regs[k][2])
                           /\ RFromText(RToText(regs[k][1])) = <<"ok", regs[k][1]>>
